@@ -11,7 +11,7 @@ RULE = (
     "(member, file, per-member observation)"
 )
 BOUNDS = {
-    "quick": "13 singles + 156 ordered pairs x 12 files of <=3 records x 6 run methods (+ if_all_agree for the breadth-first methods)",
+    "quick": "14 singles + 182 ordered pairs x 12 files of <=3 records x 6 run methods (+ if_all_agree for the breadth-first methods)",
     "thorough": "singles, pairs, 504 ordered triples over a 9-member subset x all 40 files of <=3 records x 6 run methods (+ if_all_agree)",
 }
 CHUNK = 30
@@ -33,10 +33,11 @@ MEMBERS = [
     '~ id: nr run-mode: no-run ~ $[*][fail() push("ran", line_number())]',
     "$[1*][yes()]",
     "~ id: er ~ $[*][@e = add(#0, 1)]",
+    '~ id: pq print-mode: no-default ~ $[*][print("q $.csvpath.line_number ")]',
     '~ id: fs ~ $[*][push("seen", line_number()) #0 == "k" -> fail_and_stop()]',
     '~ id: tl ~ $[*][@t = total_lines() @cl = count_lines() print("$.csvpath.total_lines $.csvpath.count_lines ")]',
 ]
-IDS = ["f1", "w1", "p1", "st", "fa", "ad", "la", "nm", "nr", None, "er", "fs", "tl"]
+IDS = ["f1", "w1", "p1", "st", "fa", "ad", "la", "nm", "nr", None, "er", "pq", "fs", "tl"]
 FILES_Q = ["k", "nk", "kn", "nkn", "knk", "nbk", "kb", "", "b", "nnk", "kkn", "bkn"]
 
 
